@@ -4,7 +4,6 @@ import (
 	"fmt"
 
 	"github.com/maypok86/otter/v2/internal/deque/queue"
-	"github.com/maypok86/otter/v2/internal/xmath"
 	"verifsim/simrt"
 )
 
@@ -25,7 +24,9 @@ type qPop struct {
 func (cr *compRun) runMPSC() {
 	w, cc := cr.w, cr.cc
 	q := queue.NewMPSC[qItem](uint32(cc.Initial), uint32(cc.Max))
-	capacity := int(xmath.RoundUpPowerOf2(uint32(cc.Max)))
+	// "an offer is refused only when the buffer holds its maximum number of events": the maximum the
+	// caller asked for (the queue may round it up; refusing below the requested maximum is the violation)
+	capacity := cc.Max
 	var pushes []*qPush
 	var pops []*qPop
 	producersDone := 0
@@ -170,6 +171,14 @@ func genMPSCCase(rng *simrt.Rng) *CompCase {
 	cc.Max = maxs[rng.Intn(len(maxs))]
 	for cc.Max < cc.Initial {
 		cc.Max *= 2
+	}
+	if rng.Intn(4) == 0 {
+		// "all initial/maximum capacity pairs": maxima (and initial sizes) that are not powers of two
+		cc.Max = []int{5, 6, 7, 9, 12, 24, 100}[rng.Intn(7)]
+		cc.Initial = []int{2, 3, 4, 5}[rng.Intn(4)]
+		if cc.Initial > cc.Max {
+			cc.Initial = 2
+		}
 	}
 	nprod := 1 + rng.Intn(5)
 	total := 0
